@@ -20,7 +20,7 @@ ASSUMPTIONS = ["names declared inside a loop body are compared name-agnostically
 
 
 def budget(tier):
-    return {"examples": 1400 if tier == "quick" else 14000, "wall_s": 110 if tier == "quick" else 1500}
+    return {"examples": 1400 if tier == "quick" else 14000, "wall_s": 110 if tier == "quick" else 900}
 
 
 @st.composite
